@@ -1,0 +1,14 @@
+//go:build verif
+
+package nclient6
+
+// VerifHook is a test-only observation and scheduling point used by the
+// model-based conformance harness (build tag "verif"). It is nil unless a
+// harness installs it.
+var VerifHook func(ev string, args ...interface{})
+
+func vhook(ev string, args ...interface{}) {
+	if h := VerifHook; h != nil {
+		h(ev, args...)
+	}
+}
